@@ -14,6 +14,7 @@ int nondet_int(void);
 unsigned int nondet_uint(void);
 long nondet_long(void);
 unsigned long nondet_ulong(void);
+unsigned long __verif_fork_u(unsigned long, unsigned long);
 unsigned char nondet_uchar(void);
 double nondet_double(void);
 }
